@@ -89,7 +89,12 @@ def cases(rng, tier):
         k = rng.randint(0, nobj)
         yield {"k": "refs", "notes": nn, "grace": [rng.random() < 0.2 for _ in range(nn)], "links": links,
                "copy": rng.sample(range(nobj), k)}
-    m = 25 if tier == "quick" else 1200
+    # parts that carry their stored segmentation and a leap with awaiting destinations (Fine / To Coda): the
+    # single-path unfoldings walk the stored Segment objects
+    for _ in range(8 if tier == "quick" else 300):
+        yield {"k": "frame", "seed": rng.randrange(2**31), "what": rng.choice(["part", "part", "score"]), "nav": True,
+               "segments": True, "edit_result": rng.random() < 0.3}
+    m = 20 if tier == "quick" else 1200
     for _ in range(m):
         c = {"k": "frame", "seed": rng.randrange(2**31), "what": rng.choice(["score", "score", "part", "performance"])}
         if c["what"] != "performance":
@@ -97,6 +102,12 @@ def cases(rng, tier):
                 c["warm"] = rng.choice([2, 16, 31, 63, 64, 95, 127, 128, 160, 255])
             if rng.random() < 0.5:
                 c["edit_result"] = True
+            if rng.random() < 0.4:
+                c["nav"] = True
+            if rng.random() < 0.4:
+                c["segments"] = True
+            if rng.random() < 0.15:
+                c["no_measures"] = True
         yield c
 
 
@@ -332,6 +343,46 @@ def add_repeat(pd, rng):
             pd["extras"].append(["Repeat", s, e, {}])
 
 
+def add_navigation(pd, rng):
+    """one of the standard navigation forms at bar lines of a part with a single time signature (after add_repeat):
+    D.C., D.C. al Fine, D.S. al Fine, D.C. al Coda, D.S. al Coda"""
+    if not (pd["ts"] and len(pd["ts"]) == 1):
+        return
+    _, b, bt = pd["ts"][0]
+    bar = 4 * b * pd["divs"] // bt
+    end = max(n["t"] + n["dur"] for n in pd["notes"]) if pd["notes"] else 0
+    nb = end // bar if bar else 0
+    if nb < 2:
+        return
+    T = [i * bar for i in range(nb + 1)]
+    form = rng.choice(["dc", "dcfine", "dcfine", "dsfine", "dccoda", "dscoda"])
+    X = pd["extras"]
+    if form == "dc":
+        X.append(["DaCapo", T[nb], None, {}])
+    elif form == "dcfine":
+        X.append(["Fine", T[rng.randint(1, nb - 1)], None, {}])
+        X.append(["DaCapo", T[nb], None, {}])
+    elif form == "dsfine" and nb >= 3:
+        s_ = rng.randint(0, nb - 2)
+        X.append(["Segno", T[s_], None, {}])
+        X.append(["Fine", T[rng.randint(s_ + 1, nb - 1)], None, {}])
+        X.append(["DalSegno", T[nb], None, {}])
+    elif form == "dccoda" and nb >= 3:
+        a = rng.randint(1, nb - 2)
+        c = rng.randint(a + 1, nb - 1)
+        X.append(["ToCoda", T[a], None, {}])
+        X.append(["DaCapo", T[c], None, {}])
+        X.append(["Coda", T[c], None, {}])
+    elif form == "dscoda" and nb >= 4:
+        s_ = rng.randint(0, nb - 4)
+        a = rng.randint(s_ + 1, nb - 2)
+        c = rng.randint(a + 1, nb - 1)
+        X.append(["Segno", T[s_], None, {}])
+        X.append(["ToCoda", T[a], None, {}])
+        X.append(["DalSegno", T[c], None, {}])
+        X.append(["Coda", T[c], None, {}])
+
+
 def frame_case(d, ev):
     import partitura.score as S
     import partitura.performance as P
@@ -363,6 +414,10 @@ def frame_case(d, ev):
         for pd in sd["parts"]:
             if rng.random() < 0.5:
                 add_repeat(pd, rng)
+            if d.get("nav"):
+                add_navigation(pd, rng)
+            if d.get("no_measures"):
+                pd["measures"] = []   # a part assembled with Part.add() only: time signature, notes, no Measure objects
         # the argument may come with a HISTORY (reads in the middle of its construction, notes placed wrongly first and
         # re-added, ties set last: gen_score.build_part `warm`); a twin with the same content and no history is kept
         # to compare every result with ("gives an identical result" must not depend on what was read before)
@@ -373,6 +428,20 @@ def frame_case(d, ev):
             for pd in sd["parts"]:
                 pd["warm"] = d["warm"]
         score = G.build_score(sd)
+        if d.get("segments"):
+            # the segmentation is stored on the part (documented in-place: add_segments / Part.segments) BEFORE the
+            # read-only calls: they must use it without rewriting it
+            for p_ in score.parts:
+                try:
+                    S.add_segments(p_)
+                except Exception:
+                    pass
+            if twin is not None:
+                for p_ in ([twin] if isinstance(twin, S.Part) else twin.parts):
+                    try:
+                        S.add_segments(p_)
+                    except Exception:
+                        pass
         obj = score.parts[0] if d["what"] == "part" else score
         eps = score_entry_points(obj, rng)
         fp = lambda: G.fingerprint_score(obj, with_ids=True)
